@@ -43,6 +43,7 @@ def run(ctx):
     ctx.tlc(res, 'Versions: Trichotomy / Antisymmetric / EqIsKeyEq / LexTotal; PEP 440 landmarks (ASSUME)')
     rnd = random.Random(ctx.seed)
     counts = {}
+    reuse = {}
     n = 0
     for rec in res.records:
         c, ref = rec['c'], rec['ref']
@@ -114,6 +115,7 @@ def run(ctx):
             if p[0] != 'ok':
                 ctx.violation({'kind': 'predicate-parse', 'got': p[0]}, {'predicate': text}, 'VersionPredicate(%r) raised %s' % (text, p[0]))
                 continue
+            reuse.setdefault(text, []).append((cand, ref['ok']))
             got = call(p[1].satisfied_by, cand)
             if got != ('ok', ref['ok']):
                 ctx.violation({'kind': 'satisfied_by', 'ops': sorted(set(op for op, _ in c['preds'])), 'want': ref['ok']},
@@ -129,6 +131,29 @@ def run(ctx):
             if got[0] != 'ValueError':
                 ctx.violation({'kind': 'bad-predicate', 'got': got[0]}, {'predicate': c['text'], 'observed': repr(got)},
                               'VersionPredicate(%r) -> %s, specification ValueError' % (c['text'], got[0]))
+    # one predicate object asked about many versions, in two orders: each answer is about the version asked, whatever
+    # was asked before (the same object; PredCases gives the answer per candidate)
+    merged = {}
+    for text, lst in reuse.items():
+        merged.setdefault(''.join(text.split()), (text, []))[1].extend(lst)
+    ru = 0
+    for key_, (text, lst) in sorted(merged.items()):
+        if len(lst) < 2:
+            continue
+        obj = call(vu.VersionPredicate, text)
+        if obj[0] != 'ok':
+            continue
+        seq = sorted(set(lst))
+        for cand, want in seq + seq[::-1] + seq[::2] + seq[1::2]:
+            ru += 1
+            got = call(obj[1].satisfied_by, cand)
+            if got != ('ok', want):
+                ctx.violation({'kind': 'satisfied_by-on-a-reused-predicate', 'want': want},
+                              {'predicate': text, 'candidate': cand, 'asked_before': [c for c, _ in seq], 'observed': repr(got)},
+                              'VersionPredicate(%r), one object asked about several versions: satisfied_by(%r) -> %s, specification %s' % (
+                                  text, cand, got, want))
+                break
+    n += ru
     ctx.cov['evaluations'] += n
     ctx.cov['distinct_nontrivial'] += n
     if len(counts) < 6:
